@@ -291,6 +291,7 @@ class C01(BtProp):
     def check_history(self, sh, obs):
         state = {}      # leaf -> "idle" | "running"
         out = []
+        prev_o = None
         for o in obs:
             if not o.ok:
                 break
@@ -330,6 +331,14 @@ class C01(BtProp):
                         out.append(viol("terminate-inside-round", "leaf %d" % i, leaf=i))
                     state[i] = "idle"
                 j += 1
+            # while it stays RUNNING each further tick calls update alone
+            if o.op.startswith("tick") and prev_o is not None:
+                for i in sh.node:
+                    if sh.is_leaf(i) and st_of(prev_o, i) == "R" and st_of(o, i) == "R":
+                        mine = [e for e in T if e[1] == i]
+                        if mine and mine != [("U", i, "R")]:
+                            out.append(viol("running-not-update-alone", "leaf %d was RUNNING before and after `%s` but its "
+                                            "callbacks were %s" % (i, o.op[:30], mine), leaf=i))
             # terminate(INVALID) exactly once per interruption: no leaf is told twice by one stop walk
             full = [e for e in o.T]
             for a in range(len(full) - 1):
@@ -364,6 +373,7 @@ class C01(BtProp):
                                         "leaf %d protocol state %s but status %s after `%s`"
                                         % (i, state.get(i, "idle"), st_of(o, i), o.op), leaf=i))
                         state[i] = "running" if st_of(o, i) == "R" else "idle"
+            prev_o = o
             if out:
                 break
         return out
